@@ -18,7 +18,7 @@ from bctmc.tally import Tally
 from bctmc import dtypes
 
 PROPERTY = 'C18'
-RULE = ('element types: every routine also on int64 / int32 / uint8 / bool copies of all 3-node digraphs over {0,1} and {0,1,2}, 4-node graphs over {0,1,2}, 5-node binary graphs (same values as for float64; integers must not raise, a boolean matrix may be rejected with TypeError); random-walk measures: every connected undirected graph over weights {1,2}, {0.5,1} and the nearly decomposable {0.002,1} (n<=5) on n<=4, binary n=5, every '
+RULE = ('pagerank on a 1001-node path and lollipop (beyond 1000 nodes), d in {0.85, 0.99}, uniform / skewed falff, against its equation; element types: every routine also on int64 / int32 / uint8 / bool copies of all 3-node digraphs over {0,1} and {0,1,2}, 4-node graphs over {0,1,2}, 5-node binary graphs (same values as for float64; integers must not raise, a boolean matrix may be rejected with TypeError); random-walk measures: every connected undirected graph over weights {1,2}, {0.5,1} and the nearly decomposable {0.002,1} (n<=5) on n<=4, binary n=5, every '
         'strongly connected binary digraph n<=4 (thorough: weights {1,2} and {0.5,1,2} on n=5); pagerank additionally x d in '
         '{0.5,0.85} x falff in {None, non-uniform}; spectral measures and findwalks: every undirected graph n<=6 (findwalks also '
         'every digraph n<=4) plus C8, K4,4, Petersen, 2xK4, 3-cube, K3,3+isolated and the structured 7-10 node family of bctmc/named.py; every network on <= 4 nodes also with self-connections; non-trivial = graph with a repeated '
@@ -92,6 +92,7 @@ def plan(ctx):
         for (a, b) in ss.ranges(tot, 16 if n == 4 else 1):
             units.append(('fw_dir', n, a, b))
     units.append(('named', None, 0, 0))
+    units.append(('big_pagerank', 0, 0, 0))
     units += dtypes.units(dtypes.STD_FAMILIES)
     return units
 
@@ -199,7 +200,38 @@ def check_findwalks(t, A, case):
         t.viol('findwalks', 'walk_length_distribution', case, observed=wlq, expected=Wq.sum(axis=0).sum(axis=0))
 
 
+def work_big_pagerank():
+    """more than 1000 nodes (the docstring's own size remark): a 1001-node path and lollipop, d in {0.85, 0.99}, uniform
+    and skewed falff; the defining equation is checked directly."""
+    t = Tally(PROPERTY)
+    n = 1001
+    P = np.zeros((n, n))
+    for i in range(n - 1):
+        P[i, i + 1] = P[i + 1, i] = 1
+    L = P.copy()
+    L[:30, :30] = 1 - np.eye(30)
+    for label, A in (('path1001', P), ('lollipop1001', L)):
+        deg = A.sum(axis=0)
+        for d in (0.85, 0.99):
+            for fname, fa in (('uniform', None), ('skewed', np.arange(1.0, n + 1))):
+                st, r = guarded(bct.pagerank_centrality, A.copy(), d, falff=None if fa is None else fa.copy(), _timeout=600)
+                t.c['evaluations'] += 1
+                case = {'family': 'big_pagerank', 'graph': label, 'd': d, 'falff': fname}
+                if st != 'ok':
+                    t.viol('pagerank_centrality', 'raises', case, observed=r)
+                    continue
+                r = np.asarray(r, dtype=float).ravel()
+                f = np.ones(n) / n if fa is None else fa / fa.sum()
+                res = np.abs(r - (d * A.dot(r / deg) + (1 - d) * f)).max() / np.abs(r).max()
+                if r.shape != (n,) or np.any(r <= 0) or abs(r.sum() - 1) > 1e-9 or res > 1e-8:
+                    t.viol('pagerank_centrality', 'pagerank_equation', case, observed=float(res), expected=0)
+    t.c['nontrivial'] += 1
+    return t
+
+
 def work(unit):
+    if unit[0] == 'big_pagerank':
+        return work_big_pagerank()
     if unit[0] == 'etype':
         return dtypes.work_unit(PROPERTY, ETYPE_FUNCS, unit)
     kind, name, a, b = unit
@@ -277,6 +309,8 @@ def work(unit):
 
 
 def replay(rec):
+    if rec['case'].get('family') == 'big_pagerank':
+        return work_big_pagerank()
     if rec['case'].get('family') == 'element_types':
         return dtypes.replay(PROPERTY, ETYPE_FUNCS, rec['case'])
     t = Tally(PROPERTY)
